@@ -267,7 +267,7 @@ func runC05(c *Ctx) {
 			lit    *ast.CompositeLit
 		}
 		var apps []app
-		b := p.BodyOf(d)
+		gas := guardedActions(d, d.Decl.Body)
 		ast.Inspect(d.Decl.Body, func(n ast.Node) bool {
 			cl, ok := n.(*ast.CompositeLit)
 			if !ok || namedTypeID(dinfo.TypeOf(cl)) != "pkg/core.DiffEntry" {
@@ -277,16 +277,26 @@ func runC05(c *Ctx) {
 			if tv := fieldOfCompositeLit(cl, "Type"); tv != nil {
 				a.typ = exprString(tv)
 			}
-			var child ast.Node = cl
-			for x := b.parent[cl]; x != nil; child, x = x, b.parent[x] {
-				if ifs, ok := x.(*ast.IfStmt); ok {
-					if child == ast.Node(ifs.Body) {
-						a.guards = append(a.guards, condShape(d, ifs.Cond))
-					} else if child == ifs.Else {
-						a.guards = append(a.guards, "!"+condShape(d, ifs.Cond))
+			// the conditions under which the report is appended, from the guard engine (nesting, early `continue`, swapped
+			// branches and De Morgan forms all give the same set)
+			for _, ga := range gas {
+				if !encloses(ga.Node, cl.Pos()) {
+					continue
+				}
+				for _, at := range ga.Atoms {
+					sh := condShape(d, at.Expr)
+					if at.Neg {
+						if strings.HasPrefix(sh, "!") {
+							sh = sh[1:]
+						} else {
+							sh = "!" + sh
+						}
 					}
+					a.guards = append(a.guards, sh)
 				}
 			}
+			sort.Strings(a.guards)
+			a.guards = dedupSorted(a.guards)
 			apps = append(apps, a)
 			return true
 		})
@@ -429,9 +439,12 @@ func condShape(f *FuncInfo, e ast.Expr) string {
 			}
 		}
 	}
-	if be, ok := e.(*ast.BinaryExpr); ok && be.Op == token.NEQ {
+	if be, ok := e.(*ast.BinaryExpr); ok && (be.Op == token.NEQ || be.Op == token.EQL) {
 		x, y := exprString(be.X), exprString(be.Y)
 		if strings.HasSuffix(x, ".Hash") && strings.HasSuffix(y, ".Hash") && x != y {
+			if be.Op == token.EQL {
+				return "!hash-differs"
+			}
 			return "hash-differs"
 		}
 	}
@@ -1151,4 +1164,14 @@ func runC10(c *Ctx) {
 	checkNoRelabelAsMissing(c, "listing.no-relabel")
 	checkGenericErrorDiscipline(c, "pkg/core")
 	checkBatchDistributesAllKeys(c, "listing.batch-distributes-all")
+}
+
+func dedupSorted(xs []string) []string {
+	var out []string
+	for i, x := range xs {
+		if i == 0 || xs[i-1] != x {
+			out = append(out, x)
+		}
+	}
+	return out
 }
